@@ -351,7 +351,7 @@ def run_property(prop_id: str, tier: str, seed_value: int) -> int:
     n_reg = 0
     reg_samples = []
     reg_nt = set()
-    if os.path.isdir(reg_dir):
+    if os.path.isdir(reg_dir) and not os.environ.get('VERIF_NO_REGRESSIONS'):   # (switch used by the mutation audit only)
         for fn in sorted(os.listdir(reg_dir)):
             if not fn.endswith('.json'):
                 continue
